@@ -192,7 +192,7 @@ def run(ctx):
     g = G.Gen(ctx.rng)
     quick = ctx.tier == 'quick'
     per_kind = 2 if quick else 8
-    inst = 1 if quick else 3
+    inst = 1 if quick else 2
     cases, meta = [], []            # Gallina terms of type Z ; meta for diagnosis
     wf_cases = []
 
@@ -265,6 +265,19 @@ def run(ctx):
                                                                          S.gal(None if impl is None else ('Some', impl), pool))))
         meta.append(('raw', name, case, impl, None))
 
+    # corpus first: witnesses of the refutation theorems (and any minimised past failure), on the implementation only
+    cdir = os.path.join(core.VERIF, 'corpus', 'C04')
+    for fn in sorted(os.listdir(cdir)) if os.path.isdir(cdir) else []:
+        with open(os.path.join(cdir, fn)) as fh:
+            rp = json.load(fh)
+        c = rp['case']
+        impl, note, _, _ = run_impl(c['pv'], jt(c.get('rm')), c['stream'], c['flags'], c['opcode'], bytes.fromhex(c['body']), raw=c.get('raw_cells', True))
+        ctx.case(['corpus', fn], nontrivial=True)
+        ctx.count('kind', 'corpus.')
+        if impl != jt(c['expected']):
+            ctx.violation(rp['key'], 'corpus/C04/%s: decode_message %s, the server sent %s' % (fn, note or 'returned ' + repr(impl)[:200], repr(jt(c['expected']))[:200]),
+                          case=c, expected=repr(jt(c['expected']))[:600], actual=note or repr(impl)[:600], theorem=rp.get('theorem'))
+
     for pv in G.VERSIONS:
         for name, thunk in g.kinds(pv):
             combos = list(G.COMBOS) if not quick else [ctx.rng.choice(G.COMBOS) for _ in range(per_kind)]
@@ -273,7 +286,7 @@ def run(ctx):
                     body, rm = thunk()
                     one_wf(pv, name, body, rm, combo)
     # malformed stream: truncations of well-formed bodies + hand-made invalid bodies
-    nsrc = 200 if quick else 3000
+    nsrc = 200 if quick else 1000
     srcs = list(wf_cases)
     ctx.rng.shuffle(srcs)
     for (pv, rm, stream, flags, opcode, bts, raw, name) in srcs[:nsrc]:
